@@ -1,6 +1,6 @@
 (* OutlineProofsProps.v -- C17: the statements of Props/C17.v that are re-packagings of
    [build_outline_ok] (fresh ids, per-item titles and destinations) and the non-vacuity example. *)
-From LV Require Import Base.Bytes Model.Obj Model.DocQ Model.PageTree Model.Outline Model.Toc
+From LV Require Import Base.Bytes Model.Obj Model.DocQ Model.PageTree Model.Outline Model.Toc Gen.QueryC
   Spec.OutlineSpec Proofs.OutlineProofs Proofs.OutlineProofsTitle Proofs.OutlineProofsRead
   Proofs.OutlineProofsOps Proofs.OutlineProofsMain.
 
@@ -85,19 +85,28 @@ Proof.
 Qed.
 
 (* ---------- example ---------- *)
-Lemma lookup_In m id o : lookup m id = Some o -> In (id, o) m.
-Proof.
-  induction m as [|[i o'] m IH]; cbn [lookup]; [discriminate|].
-  destruct (oid_eqb i id) eqn:E.
-  - apply oid_eqb_eq in E. subst. intro H. inversion H. left. reflexivity.
-  - intro H. right. apply IH. exact H.
-Qed.
-
 Lemma max_id_bounds_check d :
   forallb (fun io => fst (fst io) <=? d_max_id d) (d_objects d) = true -> max_id_bounds d.
 Proof.
   intros H id o Hl. apply lookup_In in Hl. rewrite forallb_forall in H.
   specialize (H _ Hl). cbn [fst] in H. apply N.leb_le. exact H.
+Qed.
+
+Lemma scalar_titles_check f :
+  forallb (fun r : row => forallb is_scalar (row_title r)) (preorder f) = true -> scalar_titles f.
+Proof.
+  intro H. unfold scalar_titles. apply Forall_forall. intros r Hr.
+  rewrite forallb_forall in H. specialize (H r Hr). apply Forall_forall. intros c Hc.
+  rewrite forallb_forall in H. exact (H c Hc).
+Qed.
+
+Lemma targets_check d f :
+  forallb (fun r : row => match page_num (get_pages d) (snd r) with Some _ => true | None => false end) (preorder f) = true ->
+  targets_are_pages d f.
+Proof.
+  intro H. unfold targets_are_pages. apply Forall_forall. intros r Hr.
+  rewrite forallb_forall in H. specialize (H r Hr). cbv beta in H.
+  destruct (page_num (get_pages d) (snd r)) as [n|]; [exists n; reflexivity | discriminate].
 Qed.
 
 Definition K_Catalog := Eval cbv in bs "Catalog".
@@ -144,6 +153,7 @@ Lemma ex_hyps :
   get_object_mut_id (d_objects ex_doc) (1, 0) = Some ((1, 0), ODict ex_cat) /\
   no_name_trees ex_cat /\
   distinct_titles ex_forest /\ scalar_titles ex_forest /\
+  N.of_nat (fheight ex_forest) <= OUTLINE_DEPTH_LIMIT + 1 /\
   (fsize ex_forest <= 4)%nat /\
   build_outline (default_fuel (add_all (fresh_bdoc ex_doc) ex_ops)) (add_all (fresh_bdoc ex_doc) ex_ops)
     = OOk (Some (5, 0), ex_built) /\
@@ -159,11 +169,72 @@ Proof.
   split.
   { unfold distinct_titles. vm_compute.
     repeat (constructor; [intro H; repeat (destruct H as [H|H]; [discriminate H|]); exact H|]). constructor. }
-  split.
-  { unfold scalar_titles. vm_compute. repeat constructor. }
+  split; [apply scalar_titles_check; vm_compute; reflexivity|].
+  split; [vm_compute; discriminate|].
   split; [vm_compute; lia|].
   split; [vm_compute; reflexivity|].
-  split.
-  { unfold targets_are_pages. vm_compute. repeat (constructor; [eexists; reflexivity|]). constructor. }
+  split; [apply targets_check; vm_compute; reflexivity|].
   split; vm_compute; reflexivity.
+Qed.
+
+(* ---------- the First-nesting limit of get_outlines: forests higher than OUTLINE_DEPTH_LIMIT + 1 ---------- *)
+Definition too_deep (f : list itree) : bool := (OUTLINE_DEPTH_LIMIT + 1 <? N.of_nat (fheight f))%N.
+
+(* a chain: bookmark k+1 is the only child of bookmark k; titles are the distinct letters U+0400+k *)
+Fixpoint chain_ops (n : nat) (k : N) : list bop :=
+  match n with
+  | O => []
+  | S n' => {| op_title := [1024 + k]; op_format := 0; op_color := no_color; op_page := (3, 0);
+               op_parent := if (k =? 0)%N then None else Some k |} :: chain_ops n' (k + 1)
+  end.
+Definition deep_ops : list bop := chain_ops 258 0.
+Definition deep_forest : list itree := forest_of_ops (map sop_of deep_ops).
+Definition deep_final : doc :=
+  match build_outline 259 (add_all (fresh_bdoc ex_doc) deep_ops) with
+  | OOk (_, b') => attach (base b') (1, 0) (5, 0)
+  | _ => ex_doc
+  end.
+
+Fixpoint ueqb (a b : ustring) : bool :=
+  match a, b with
+  | [], [] => true
+  | x :: a', y :: b' => (x =? y) && ueqb a' b'
+  | _, _ => false
+  end.
+Lemma ueqb_eq a : forall b, ueqb a b = true -> a = b.
+Proof.
+  induction a as [|x a IH]; intros [|y b] H; try discriminate; [reflexivity|].
+  cbn [ueqb] in H. apply andb_true_iff in H. destruct H as [H1 H2]. apply N.eqb_eq in H1. subst. f_equal. apply IH. exact H2.
+Qed.
+Lemma ueqb_refl a : ueqb a a = true.
+Proof. induction a as [|x a IH]; [reflexivity|]. cbn [ueqb]. rewrite N.eqb_refl. exact IH. Qed.
+Fixpoint nodupb (l : list ustring) : bool :=
+  match l with [] => true | x :: r => negb (existsb (ueqb x) r) && nodupb r end.
+Lemma nodupb_sound l : nodupb l = true -> NoDup l.
+Proof.
+  induction l as [|x r IH]; intro H; [constructor|].
+  cbn [nodupb] in H. apply andb_true_iff in H. destruct H as [H1 H2]. constructor; [|apply IH; exact H2].
+  intro Hin. apply negb_true_iff in H1. assert (E : existsb (ueqb x) r = true).
+  { apply existsb_exists. exists x. split; [exact Hin | apply ueqb_refl]. }
+  congruence.
+Qed.
+
+Lemma deep_witness :
+  too_deep deep_forest = true /\
+  fheight deep_forest = 258%nat /\
+  deep_forest <> [] /\
+  distinct_titles deep_forest /\ scalar_titles deep_forest /\
+  targets_are_pages deep_final deep_forest /\
+  (exists b', build_outline (default_fuel (add_all (fresh_bdoc ex_doc) deep_ops)) (add_all (fresh_bdoc ex_doc) deep_ops)
+              = OOk (Some (5, 0), b') /\ attach (base b') (1, 0) (5, 0) = deep_final) /\
+  get_toc 1000 deep_final = TErr.
+Proof.
+  split; [vm_compute; reflexivity|].
+  split; [vm_compute; reflexivity|].
+  split; [vm_compute; discriminate|].
+  split; [unfold distinct_titles; apply nodupb_sound; vm_compute; reflexivity|].
+  split; [apply scalar_titles_check; vm_compute; reflexivity|].
+  split; [apply targets_check; vm_compute; reflexivity|].
+  split; [eexists; split; [vm_compute; reflexivity | vm_compute; reflexivity]|].
+  vm_compute. reflexivity.
 Qed.
